@@ -598,11 +598,18 @@ def gen_case(seeds, params, index):
     else:
         k = w.choice([0, 0, 1, 1, 2, 3, 4, 5, 6])
     fault = f.choice(['budget', 'budget', 'read_error', 'read_error_far'])
+    if w.random() < 0.06:
+        # a pipeline whose LAST call cannot be resolved: nothing was asked
+        # for, so nothing may be consumed while the error is produced
+        mode = 'failing'
+        k = 0
+        term = w.choice([['nosuch'], ['badarg'], ['badkw']])
     return {'ops': ops, 'dict_source': dict_source, 'mode': mode, 'k': k,
             'term': term, 'value_fn': w.choice(['id', 'id', 'mod5', 'mix', 'rep']),
             'value_fn2': w.choice(['id', 'mod5']),
             'limit': w.choice([-1, -1, 1000, 5000]),
             'via_data': w.random() < 0.3,
+            'reiterable': w.random() < 0.15,
             'fault': fault}
 
 
@@ -641,6 +648,14 @@ def base_context():
     return c
 
 
+class Reiterable:
+    def __init__(self, src):
+        self._src = src
+
+    def __iter__(self):
+        return iter(self._src)
+
+
 def norm(v):
     if isinstance(v, (list, tuple)):
         return [norm(x) for x in v]
@@ -669,7 +684,11 @@ def run_model(case):
         b.add(op)
     results = []
     try:
-        if case['mode'] == 'terminal':
+        if case['mode'] == 'failing':
+            b.text += {'nosuch': '.noSuchMethod(1)', 'badarg': '.take(abc)',
+                       'badkw': '.skip(nope => 1)'}[case['term'][0]]
+            results = ['resolution-error']
+        elif case['mode'] == 'terminal':
             f = b.terminal(case['term'])
             try:
                 results = ['scalar', f()]
@@ -723,6 +742,11 @@ def execute(case, stats):
                            budget=d2 + 1 + 64, fail_at=fail2)
     ctx = ctx0.create_child_context()
     ctx['src2'] = src2
+    data_src = src
+    if case.get('reiterable'):
+        # an iterable that is not an iterator (only __iter__), as hosts pass
+        # for re-readable streams
+        data_src = Reiterable(src)
     skey = (text, case['limit'], case['mode'] != 'next',
             bool(case.get('via_data')))
     st = _state.setdefault('stmts', {}).get(skey)
@@ -736,11 +760,13 @@ def execute(case, stats):
     err = None
     try:
         if case.get('via_data'):
-            r = st.evaluate(data=src, context=ctx)
+            r = st.evaluate(data=data_src, context=ctx)
         else:
-            ctx['src'] = src
+            ctx['src'] = data_src
             r = st.evaluate(context=ctx)
-        if case['mode'] == 'terminal':
+        if case['mode'] == 'failing':
+            got = ['no-error', repr(r)[:80]]
+        elif case['mode'] == 'terminal':
             got = ['scalar', r]
         elif case['mode'] == 'take':
             got = list(r)
@@ -763,7 +789,14 @@ def execute(case, stats):
     except StopIteration:
         got = ['stop']
     except E.YaqlException as e:
-        err = ['yaql', type(e).__name__ + ': ' + str(e)]
+        if case['mode'] == 'failing' and type(e).__name__ in (
+                'NoMethodRegisteredException', 'NoMatchingMethodException',
+                'NoFunctionRegisteredException',
+                'NoMatchingFunctionException'):
+            got = ['resolution-error']
+            stats.inc('probe.failing_tail_call')
+        else:
+            err = ['yaql', type(e).__name__ + ': ' + str(e)]
     except Exception as e:
         err = ['exc', type(e).__name__ + ': ' + str(e)]
     ticks = {}
